@@ -46,9 +46,13 @@ def main():
     res.append(harmless('numba2lean.py','overloads reordered (even/odd swapped in the file)',[(NB,"@numba.extending.overload_attribute(MultiVectorType, 'even')\ndef MultiVector_even(self):\n    return MultiVector.even.fget\n\n\n@numba.extending.overload_attribute(MultiVectorType, 'odd')\ndef MultiVector_odd(self):\n    return MultiVector.odd.fget\n","@numba.extending.overload_attribute(MultiVectorType, 'odd')\ndef MultiVector_odd(self):\n    return MultiVector.odd.fget\n\n\n@numba.extending.overload_attribute(MultiVectorType, 'even')\ndef MultiVector_even(self):\n    return MultiVector.even.fget\n")]))
     res.append(harmless('shipped2lean.py','dpga.up terms reordered; gac n1 = e6 + e3',[('clifford/dpga.py',"return x*w1 + y*w2 + z*w3 + w0","return w0 + z*w3 + y*w2 + x*w1"),('clifford/gac.py',"n1 = e3 + e6","n1 = e6 + e3")]))
     res.append(harmless('shipped2lean.py','dg3c up_cga2 with (p|p) instead of p**2',[('clifford/dg3c.py',"return euc_point + 0.5*euc_point**2*einf2 + eo2","return euc_point + 0.5*(euc_point|euc_point)*einf2 + eo2")]))
+    TE='clifford/taylor_expansions.py'
+    res.append(harmless('series2lean.py','exp: result += tmp; tmp*scaled/i',[(TE,"            result = result + tmp\n","            result += tmp\n"),(TE,"tmp = tmp*scaled * (1.0 / i)","tmp = tmp*scaled / i")]))
     G3='clifford/tools/g3/__init__.py'
     res.append(harmless('quat2lean.py','q2m: qxy = q[2]*q[1]*2; m2q: x = s*(a21-a12)',[(G3,"qxy = 2*q[1]*q[2]","qxy = q[2]*q[1]*2"),(G3,"        x = (a[2][1] - a[1][2]) * s\n","        x = s * (a[2][1] - a[1][2])\n")]))
     CL='clifford/_conformal_layout.py'; L='clifford/_layout.py'; H='clifford/_layout_helpers.py'; I='clifford/__init__.py'
+    res.append(semantic('series2lean.py','exp: scale from the largest coefficient',[(TE,"max_val = int(np.sum(np.abs(x.value)))","max_val = int(np.max(np.abs(x.value)))")]))
+    res.append(semantic('series2lean.py','exp: squaring loop while scale > 2',[(TE,"    while scale > 1:\n        result = result*result","    while scale > 2:\n        result = result*result")]))
     res.append(semantic('quat2lean.py','q2m: entry (0,1) sign',[(G3,"[1-qy2-qz2, qxy-qzw, qxz+qyw]","[1-qy2-qz2, qxy+qzw, qxz+qyw]")]))
     res.append(semantic('quat2lean.py','m2q: branch 2 radicand sign',[(G3,"s = 2.0 * math.sqrt(1.0 + a[0][0] - a[1][1] - a[2][2])","s = 2.0 * math.sqrt(1.0 + a[0][0] + a[1][1] - a[2][2])")]))
     res.append(semantic('quat2lean.py','m2q: trace > -1',[(G3,"    if trace > 0:","    if trace > -1:")]))
